@@ -24,7 +24,7 @@ def obligations(tier):
     import itertools
     obs = []
     plans = [('h_vec_ops', 'vec__ensure_capacity', 7, 3 if tier == 'quick' else 4, 'vector: push(const&) / push(&&) / pop / resize(size+2) / clear / resize(size/2) / resize(2*capacity+1), then copy, move, assign, accessors'),
-             ('h_svec_ops', 'svec__ensure_capacity', 6, 3 if tier == 'quick' else 4, 'small_vector<T,4>: push_back / emplace_back / pop_back / resize(size+3) / resize(size/2) / resize(2*capacity+1) with accessors after every step'),
+             ('h_svec_ops', 'svec__ensure_capacity', 6, 3, 'small_vector<T,4>: push_back / emplace_back / pop_back / resize(size+3) / resize(size/2) / resize(2*capacity+1) with accessors after every step'),
              ('h_ilist_ops', 'ilist_erase', 7, 3 if tier == 'quick' else 4, 'intrusive_list over 6 nodes: push_back / push_front / pop_front / pop_back / erase(2nd) / insert(before 2nd) / splice(2 nodes at end); forward, backward, in_list checked after every step'),
              ('h_list_ops', 'list_pop_front', 3, 3 if tier == 'quick' else 5, 'list: emplace_back(int) / emplace_back(const T&) / front+pop_front; destroyed non-empty'),
              ('h_stk_ops', 'stk_push', 3, 3 if tier == 'quick' else 5, 'stack: push / emplace / top+pop')]
@@ -34,7 +34,7 @@ def obligations(tier):
             obs.append(dict(id='seq.%s.%s' % (h[2:], sid), entry=h, cls='B', serves=['C13', 'C16'], unwind=16, leak=True, function=fn,
                             defines=['NOPS=%d' % length, 'SEQ_OPS={%s}' % ','.join(str(x) for x in seq)],
                             bound='operation sequence %s of length %d from the empty container, symbolic values (%s)' % (sid, length, what),
-                            timeout=600))
+                            timeout=1500))
     obs.append(dict(id='seq.svec_move_inline', entry='h_svec_ops', cls='B', serves=['C16'], unwind=16, leak=True, function='svec_ctor_move', kf='svec-move-relocates-inline',
                     defines=['NOPS=2', 'SEQ_OPS={0,1}', 'SVEC_MOVE_INLINE'], bound='two pushes (inline storage), then move construction', timeout=600))
     obs.append(dict(id='seq.dyn_ops', entry='h_dyn_ops', cls='B', serves=['C13', 'C16'], unwind=8, leak=True, function='dyn_ctor_copy',
